@@ -177,9 +177,10 @@ def violation_attrs(v):
         a["_ti"] = ti
     if hasattr(v, "insert_whitespace"):
         a["_iw"] = bool(v.insert_whitespace)
-    if "_tv" in a:
-        # the same value under the key the insert family (`…_using_value_from_token`) reads
-        a["__token_value"] = a["_tv"]
+    if tv is not None and isinstance(tv, (str, int)) and not isinstance(tv, bool):
+        # the value the extractor stored on the region (`get_token_value()`), under the key the insert
+        # family (`…_using_value_from_token`) reads
+        a["__token_value"] = tv
     return a
 
 
